@@ -16,6 +16,35 @@ import (
 
 func init() { props["C10"] = runC10 }
 
+// deepType prints a type with everything String() hides: the properties of loose objects, the mapped type and
+// the Deref flag of arrays.
+func deepType(t actionlint.ExprType) string {
+	switch t := t.(type) {
+	case *actionlint.ObjectType:
+		ks := make([]string, 0, len(t.Props))
+		for k := range t.Props {
+			ks = append(ks, k)
+		}
+		sort.Strings(ks)
+		var sb strings.Builder
+		sb.WriteString("{")
+		for _, k := range ks {
+			sb.WriteString(k + ":" + deepType(t.Props[k]) + ";")
+		}
+		if t.Mapped != nil {
+			sb.WriteString("=>" + deepType(t.Mapped))
+		}
+		sb.WriteString("}")
+		return sb.String()
+	case *actionlint.ArrayType:
+		return fmt.Sprintf("[%s deref=%v]", deepType(t.Elem), t.Deref)
+	case nil:
+		return "nil"
+	default:
+		return t.String()
+	}
+}
+
 // tableFingerprint hashes every exported built-in table of the package.
 func tableFingerprint() string {
 	h := sha256.New()
@@ -36,7 +65,7 @@ func tableFingerprint() string {
 	}
 	sort.Strings(names)
 	for _, k := range names {
-		fmt.Fprintf(h, "var %s=%s\n", k, actionlint.BuiltinGlobalVariableTypes[k].String())
+		fmt.Fprintf(h, "var %s=%s\n", k, deepType(actionlint.BuiltinGlobalVariableTypes[k]))
 	}
 	fnames := make([]string, 0)
 	for k := range actionlint.BuiltinFuncSignatures {
@@ -69,6 +98,9 @@ func tableFingerprint() string {
 const c10Reusable = "on:\n  workflow_call:\n    inputs:\n      name:\n        type: string\n        required: true\n      count:\n        type: number\n    secrets:\n      tok:\n        required: true\n    outputs:\n      res:\n        value: ${{ jobs.j.outputs.o }}\njobs:\n  j:\n    runs-on: ubuntu-latest\n    outputs:\n      o: x\n    steps:\n      - run: echo ${{ inputs.name }} ${{ inputs.nope }}\n"
 const c10Caller = "on: push\njobs:\n  c:\n    uses: ./.github/workflows/reusable.yml\n    with:\n      name: x\n      count: abc\n      extra: 1\n    secrets:\n      tok: ${{ secrets.T }}\n  d:\n    needs: c\n    runs-on: ubuntu-latest\n    steps:\n      - run: echo ${{ needs.c.outputs.res }} ${{ needs.c.outputs.nope }}\n      - uses: ./act\n        with:\n          x: 1\n          zz: 2\n"
 const c10Misc = "on:\n  push:\n    branches: ['a b']\n  issues:\n    types: [opened, bogus]\njobs:\n  j:\n    runs-on: [self-hosted, gpu-box]\n    steps:\n      - run: echo ${{ vars.DEPLOY_ENV }} ${{ vars.UNKNOWN_VAR }} ${{ github.evnt }}\n      - uses: actions/checkout@v4\n        with:\n          nosuch: 1\n"
+// jobs that derive matrix types from shared context types and then extend / narrow them, and a file that reads those contexts
+const c10CtxMatrix = "on: push\njobs:\n  a:\n    runs-on: ubuntu-latest\n    strategy:\n      matrix:\n        include:\n          - ${{ github.event }}\n          - foo: 1\n    steps:\n      - run: echo ${{ matrix.foo }}\n  b:\n    runs-on: ubuntu-latest\n    strategy:\n      matrix:\n        include:\n          - ${{ vars }}\n          - zeta: {x: 1}\n    steps:\n      - run: echo ${{ github.event.commits.*.author.name }} ${{ github.event.*.id }}\n  c:\n    runs-on: ubuntu-latest\n    strategy:\n      matrix: ${{ github.event }}\n    steps:\n      - run: echo ${{ matrix.x }}\n"
+const c10CtxReader = "on: push\njobs:\n  r:\n    runs-on: ubuntu-latest\n    steps:\n      - run: echo ${{ github.event.foo.bar }} ${{ github.event.include.x }} ${{ vars.zeta.x }} ${{ github.event.commits.id.x }}\n"
 const c10Action = "name: act\ndescription: d\ninputs:\n  x:\n    description: d\n    required: true\nruns:\n  using: composite\n  steps:\n    - run: echo\n      shell: bash\n"
 
 func runC10(c *ctx, r *Report) error {
@@ -77,7 +109,7 @@ func runC10(c *ctx, r *Report) error {
 	if !c.quick {
 		nOrders = 40
 	}
-	r.Rule = fmt.Sprintf("a scratch tree with two repositories whose directory names share a prefix (repo, repo2) and different configurations (config-variables, self-hosted labels), a well-formed local action and a local reusable workflow called from another file; every non-empty subset of the 7 workflow files × %d random argument orders × GOMAXPROCS ∈ {1,4,16}: the diagnostics LintFiles returns for each file must equal those of LintFile on a fresh linter for that file alone — in particular whether the called reusable workflow is part of the run or not — and a fingerprint of every exported built-in table (webhook types, popular actions, function signatures, context types, untrusted inputs, special functions, branding tables) must be unchanged after each run; non-trivial = distinct (subset, order, GOMAXPROCS) runs with ≥ 2 files", nOrders)
+	r.Rule = fmt.Sprintf("a scratch tree with two repositories whose directory names share a prefix (repo, repo2) and different configurations (config-variables, self-hosted labels), a well-formed local action and a local reusable workflow called from another file; every non-empty subset of the 9 workflow files (one of them builds matrices out of shared context types, one reads those contexts) × %d random argument orders × GOMAXPROCS ∈ {1,4,16}: the diagnostics LintFiles returns for each file must equal those of LintFile on a fresh linter for that file alone — in particular whether the called reusable workflow is part of the run or not — and a fingerprint of every exported built-in table (webhook types, popular actions, function signatures, context types, untrusted inputs, special functions, branding tables) must be unchanged after each run; non-trivial = distinct (subset, order, GOMAXPROCS) runs with ≥ 2 files", nOrders)
 	tmp, err := os.MkdirTemp("", "verif-c10-")
 	if err != nil {
 		return err
@@ -95,11 +127,11 @@ func runC10(c *ctx, r *Report) error {
 			os.WriteFile(filepath.Join(root, ".github", "workflows", n), []byte(s), 0o644)
 		}
 	}
-	mk("repo", "self-hosted-runner:\n  labels: [gpu-box]\nconfig-variables: [ZETA, DEPLOY_ENV, ALPHA]\n", map[string]string{"reusable.yml": c10Reusable, "caller.yml": c10Caller, "misc.yml": c10Misc, "clean.yml": "on: push\njobs:\n  j:\n    runs-on: ubuntu-latest\n    steps:\n      - run: echo\n"})
+	mk("repo", "self-hosted-runner:\n  labels: [gpu-box]\nconfig-variables: [ZETA, DEPLOY_ENV, ALPHA]\n", map[string]string{"reusable.yml": c10Reusable, "caller.yml": c10Caller, "misc.yml": c10Misc, "ctxmatrix.yml": c10CtxMatrix, "ctxreader.yml": c10CtxReader, "clean.yml": "on: push\njobs:\n  j:\n    runs-on: ubuntu-latest\n    steps:\n      - run: echo\n"})
 	mk("repo2", "self-hosted-runner:\n  labels: []\nconfig-variables: [UNKNOWN_VAR]\n", map[string]string{"reusable.yml": c10Reusable, "caller.yml": c10Caller, "misc.yml": c10Misc})
 	var files []string
 	for _, repo := range []string{"repo", "repo2"} {
-		for _, n := range []string{"reusable.yml", "caller.yml", "misc.yml", "clean.yml"} {
+		for _, n := range []string{"reusable.yml", "caller.yml", "misc.yml", "clean.yml", "ctxmatrix.yml", "ctxreader.yml"} {
 			p := filepath.Join(tmp, repo, ".github", "workflows", n)
 			if _, err := os.Stat(p); err == nil {
 				files = append(files, p)
@@ -139,6 +171,10 @@ func runC10(c *ctx, r *Report) error {
 		}
 		alone[f] = canon(errs)[f]
 		r.hist(fmt.Sprintf("alone-diags:%d", len(errs)))
+		if fp := tableFingerprint(); fp != fp0 {
+			r.finding("builtin-table-modified", "an exported built-in table changed during linting", Case{Op: "lintfile", Input: map[string]string{"file": strings.TrimPrefix(f, tmp+"/"), "source": func() string { b, _ := os.ReadFile(f); return string(b) }()}})
+			fp0 = fp
+		}
 	}
 	// sanity: the two repositories must give different results for misc.yml (different configuration)
 	if alone[files[2]] == alone[filepath.Join(tmp, "repo2", ".github", "workflows", "misc.yml")] {
